@@ -5,7 +5,7 @@ CONFIG = {
     "models": [],
     "lean_sources": ["OasisModel/Handlers"],
     "regen": [{"kind": "handlerfacts", "out": "HandlerFacts.lean"}],
-    "generated_obligations": 15,
+    "generated_obligations": 17,
     "drivers": [],
     "trusted_base": [
         "Lean 4.33 kernel; `decide +kernel` (kernel evaluation, no extra axioms) for the regenerated tables",
@@ -17,5 +17,5 @@ CONFIG = {
         "methods classified as reads do not modify state",
     ],
     "partial": "Handlers are covered by regenerated control-flow facts, not by a full semantic model; vault/keymanager/beacon/roothash bodies are only in the facts. CheckTx/simulation purity (separate trees) is not in the Lean model. A differential driver on the real apps (state dump before/after a failing tx) is planned as second tie.",
-    "explanation": "Model theorems + regenerated handler facts (15 handler roots).",
+    "explanation": "Model theorems + regenerated handler facts (17 roots: authentication, post-execute, 15 handler roots).",
 }
